@@ -91,8 +91,10 @@ static void body(void) {
   for (int i = 0; i < n; i++) for (int j = 0; j < ptot; j++) X_[i * ptot + j] = E0_[i * ptot + j] + OFFS[j % 4];
   /* one variable without spread inside a block of >= 2 variables (preprocessing switches it off; the block is still
    * divided by the square root of its NUMBER OF VARIABLES, as the statement says) */
-  { int cc = vx_choose_dev("constcol", 2); if (cc) { int b0 = -1; for (int b = 0; b < nb && b0 < 0; b++) if (w[b] >= 2) b0 = b; vx_require(b0 >= 0);
-      for (int i = 0; i < n; i++) X_[i * ptot + col0[b0] + w[b0] - 1] = 2.5; } }
+  { int cc = vx_choose_dev("constcol", 3);   /* 1: the last variable of the first block with >= 2 variables; 2: the very first variable of the first block */
+    if (cc == 1) { int b0 = -1; for (int b = 0; b < nb && b0 < 0; b++) if (w[b] >= 2) b0 = b; vx_require(b0 >= 0);
+      for (int i = 0; i < n; i++) X_[i * ptot + col0[b0] + w[b0] - 1] = 2.5; }
+    if (cc == 2) { vx_require(w[0] >= 2); for (int i = 0; i < n; i++) X_[i * ptot] = 2.5; } }
   /* data in small units (everything x 1e-6, centred only or Pareto): the decomposition is scale-equivariant, every allowance
    * below is relative, so only a stopping rule or guard that is absolute in the data units can tell the difference */
   { int un = vx_choose_dev("units", 2); if (un) { vx_require(scaling == 0 || scaling == 2); for (int i = 0; i < n * ptot; i++) X_[i] *= 1e-6; } }
